@@ -14,12 +14,20 @@ from ..absint.values import BV, Agg, RefV, Cell, Opaque
 MSD = 'merge_ska_dict::MergeSkaDict'
 SD = 'ska_dict::SkaDict'
 SHARED = 7
+PROP = Agg('adt:std::option::Option', 1, [0.5])          # --proportion-reads as handed to the build
 
 
-def _sample_dict(facts, I, args):
-    """abstract SkaDict::new(k, sample_idx, (file1, file2), name, rc, qual, proportion_reads)"""
+def _sample_dict(facts, I, args, seen=None):
+    """abstract SkaDict::new(k, sample_idx, (file1, file2), name, rc, qual, proportion_reads); the build options each sample is
+    constructed with are recorded in `seen`"""
     names = [f['name'] for f in facts.adt(SD)['variants'][0]['fields']]
     k, idx, files, name, rc = args[0], args[1], args[2], args[3], args[4]
+    if seen is not None:
+        q = args[5]
+        while isinstance(q, RefV):
+            q = I.load(q)
+        pr = args[6]
+        seen.append((I.conc(k), I.conc(rc), q.tag if isinstance(q, Opaque) else repr(q), (pr.variant, pr.fields[0] if pr.variant == 1 else None)))
     f1 = files.fields[0]
     fs = I.load(f1) if isinstance(f1, RefV) else f1
     while isinstance(fs, RefV):
@@ -42,16 +50,16 @@ def _sample_dict(facts, I, args):
     return Agg('adt:' + SD, 0, [vals[n] for n in names])
 
 
-def run_parallel(facts, n, depth):
+def run_parallel(facts, n, depth, seen=None):
     I = Interp(facts, {'IntT': 'u64'})
-    I.overrides[SD + '::new'] = lambda I_, a, t, c: _sample_dict(facts, I_, a)
+    I.overrides[SD + '::new'] = lambda I_, a, t, c: _sample_dict(facts, I_, a, seen)
     files = Agg('array', 0, [Agg('tuple', 0, [StrV(list('n%d' % i)), StrV(list('f%d' % i)), NONE]) for i in range(n)])
     fc = Cell(files, 'files')
     qual = RefV(Cell(Opaque('qual'), 'qual'))
     if depth == 0:
-        r = I.call_fn('merge_ska_dict::multi_append', [RefV(fc, (), (0, n)), BV(64, 0), BV(64, n), BV(64, 31), BV(1, 1), qual, NONE])
+        r = I.call_fn('merge_ska_dict::multi_append', [RefV(fc, (), (0, n)), BV(64, 0), BV(64, n), BV(64, 31), BV(1, 1), qual, PROP])
     else:
-        r = I.call_fn('merge_ska_dict::parallel_append', [BV(64, depth), BV(64, 0), RefV(fc, (), (0, n)), BV(64, n), BV(64, 31), BV(1, 1), qual, NONE])
+        r = I.call_fn('merge_ska_dict::parallel_append', [BV(64, depth), BV(64, 0), RefV(fc, (), (0, n)), BV(64, n), BV(64, 31), BV(1, 1), qual, PROP])
     names = [f['name'] for f in facts.adt(MSD)['variants'][0]['fields']]
     d = dict(zip(names, r.fields))
     got_names = [''.join(s.chars) if isinstance(s, StrV) else repr(s) for s in d['names'].fields]
@@ -80,12 +88,19 @@ def check_parallel_append(facts, chk, rule, tier):
             if depth and (1 << depth) > n:
                 continue
             nrun += 1
+            seen = []
             try:
-                names, rows, ns = run_parallel(facts, n, depth)
+                names, rows, ns = run_parallel(facts, n, depth, seen)
             except Panic as p:
                 bad.append((n, depth, 'panic: %s' % p.kind))
                 continue
             wn, wr = spec(n)
+            opts = set(seen)
+            if len(seen) != n or opts != {(31, 1, 'qual', (1, 0.5))}:
+                odd = [i for i, o in enumerate(seen) if o != (31, 1, 'qual', (1, 0.5))][:4]
+                bad.append((n, depth, '%d samples constructed; samples (in construction order) %s were built with options (k, rc, quality options, proportion of reads) = %s instead of the ones given (31, 1, qual, Some(0.5))'
+                            % (len(seen), odd, [seen[i] for i in odd][:2])))
+                continue
             if names != wn:
                 bad.append((n, depth, 'names %s, specified %s' % (names, wn)))
             elif rows != wr:
@@ -98,4 +113,4 @@ def check_parallel_append(facts, chk, rule, tier):
                       detail='%d of %d (samples, recursion depth) cases differ; first: %d samples, depth %d: %s' % ((len(bad), nrun) + bad[0]))
     else:
         chk.ok(rule, key, 'merge_ska_dict::parallel_append',
-               'sample i (position in the input list) owns name i and column i of every row for %s samples x recursion depth 0..3 (%d runs; SkaDict::new abstracted, rayon::join = both closures)' % (list(sizes), nrun), evals=nrun)
+               'sample i (position in the input list) owns name i and column i of every row, and every sample is constructed with the k, strand mode, quality options and --proportion-reads given, for %s samples x recursion depth 0..3 (%d runs; SkaDict::new abstracted, rayon::join = both closures)' % (list(sizes), nrun), evals=nrun)
